@@ -10,6 +10,9 @@ import (
 
 // Diagnose re-runs the case with the AfterPhase hook (H3) installed and names the first pipeline phase whose documented
 // post-condition does not hold. It is a diagnostic for violation reports only and never decides a verdict.
+// DiagStream, when set, receives every diagnosis note immediately (useful when the run then dies with a fatal error).
+var DiagStream func(string)
+
 func Diagnose(edges [][]string, o Opts) string {
 	var notes []string
 	comp := 0
@@ -24,6 +27,9 @@ func Diagnose(edges [][]string, o Opts) string {
 		}
 		if msg := checkSnapshot(s); msg != "" {
 			notes = append(notes, fmt.Sprintf("component#%d after phase %d: %s", comp, s.Phase, msg))
+			if DiagStream != nil {
+				DiagStream(notes[len(notes)-1])
+			}
 		}
 	})
 	defer autog.VerifSetAfterPhase(nil)
